@@ -50,7 +50,7 @@ class Job:
                  unwind=None, unwindset=(), solver='sat', kind='proof', bound=None, timeout=600,
                  cbmc_flags=(), loop_contracts=None, functions=(), ops=None, object_bits=None,
                  no_standard_checks=False, note='', replay=None, incdirs=(), expect_reach=None,
-                 enforce_more=(), fallback=None):
+                 enforce_more=(), fallback=None, pre_unwind=(), scope=()):
         self.name = name
         self.harness = harness
         self.entry = entry
@@ -76,6 +76,8 @@ class Job:
         self.incdirs = list(incdirs)
         self.expect_reach = expect_reach
         self.fallback = fallback
+        self.pre_unwind = list(pre_unwind)
+        self.scope = set(scope)  # harness functions (besides entry) whose assertions belong to this job
 
 
 SOLVER_FLAGS = {
@@ -120,14 +122,41 @@ def category(prop, desc):
     return 'other'
 
 
+_compile_lock = __import__('threading').Lock()
+_compiled = {}
+
+
 def compile_and_instrument(job, staged, workdir, log):
     base = os.path.join(workdir, job.name)
     gb = base + '.gb'
+    if not (job.enforce or job.replace or job.loop_contracts or job.pre_unwind):
+        # plain harness: compile the staged TU once, let cbmc pick the entry point (--function)
+        with _compile_lock:
+            if staged not in _compiled:
+                sgb = staged[:-2] + '.gb'
+                rc, out, err, t = sh(['goto-cc', '-c', staged, '-o', sgb], 300, log)
+                _compiled[staged] = (rc, sgb, err)
+            rc, sgb, err = _compiled[staged]
+        if rc != 0:
+            raise ToolError('goto-cc', (err or '')[-3000:] if rc is not None else 'timeout')
+        job._shared_entry = True
+        return sgb, err or ''
     rc, out, err, t = sh(['goto-cc', '--function', job.entry, staged, '-o', gb], 300, log)
     if rc != 0:
         raise ToolError('goto-cc', (err or '')[-3000:] if rc is not None else 'timeout')
     cur = gb
     warnings = err or ''
+    if job.pre_unwind:
+        # loops of callees that sit under a loop contract must be gone before DFCC instruments
+        pu = base + '.pu.gb'
+        cmd = ['goto-instrument']
+        for u in job.pre_unwind:
+            cmd += ['--unwindset', u]
+        cmd += ['--unwinding-assertions', cur, pu]
+        rc, out, err, t = sh(cmd, 300, log)
+        if rc != 0:
+            raise ToolError('goto-instrument --unwindset', ((out or '') + (err or ''))[-2000:] if rc is not None else 'timeout')
+        cur = pu
     if job.enforce or job.replace or job.loop_contracts:
         gi = base + '.dfcc.gb'
         cmd = ['goto-instrument', '--no-malloc-may-fail', '--dfcc', job.entry]
@@ -148,6 +177,8 @@ def compile_and_instrument(job, staged, workdir, log):
 
 def cbmc_cmd(job, gbfile, extra=()):
     cmd = ['cbmc', gbfile, '--json-ui']
+    if getattr(job, '_shared_entry', False):
+        cmd += ['--function', job.entry]
     if job.no_standard_checks:
         cmd += ['--no-standard-checks']
     else:
@@ -197,7 +228,7 @@ def run_job(job, staged, workdir, log):
         return res
     res['gb'] = gbfile
     for w in warn.splitlines():
-        if re.search(r'ignoring|no body for function|does not have a contract|no candidates', w):
+        if re.search(r'ignoring|no body for function|no candidates', w):
             res['warnings'].append(w.strip()[:300])
     cmd = cbmc_cmd(job, gbfile)
     res['cmd'] = ' '.join(cmd)
@@ -219,6 +250,9 @@ def run_job(job, staged, workdir, log):
         prop = r.get('property', '')
         desc = r.get('description', '')
         loc = r.get('sourceLocation', {})
+        if getattr(job, '_shared_entry', False) and '/harness/' in loc.get('file', '') \
+                and loc.get('function', '') not in job.scope and loc.get('function', '') != job.entry:
+            continue  # assertion of another entry point of the shared harness TU: unreachable here
         res['obligations'].append({
             'id': prop, 'desc': desc, 'status': r.get('status'),
             'class': classify(prop, desc), 'cat': category(prop, desc),
